@@ -59,7 +59,9 @@ func (e *OpEngine) RunInstance(c *Call) {
 				sym.ActiveFacts = fc.Facts(e)
 			}
 			defer func() { sym.ActiveFacts = nil }()
+			e.baseline, e.watch = e.M.CellSeq(), true
 			out := e.M.Run(func() interp.Value { return e.M.Call(c.Fn, args, nil) })
+			e.watch = false
 			e.Paths++
 			e.did("S6.panic", key)
 			switch out.Kind {
@@ -527,21 +529,49 @@ func okTie(got sym.Expr, g sym.Expr) bool {
 
 /* ---------- numeric separation of two extracted formulas (never a reason to pass) ---------- */
 
-func leafVal(name string, idx []int64) float64 {
+func leafHash(name string, idx []int64) uint64 {
 	h := fnv.New64a()
 	h.Write([]byte(name))
 	for _, i := range idx {
 		fmt.Fprintf(h, ",%d", i)
 	}
-	u := h.Sum64()
-	return 0.5 + float64(u%10007)/10007.0*1.5
+	return h.Sum64()
+}
+
+func leafVal(name string, idx []int64) float64 {
+	return 0.5 + float64(leafHash(name, idx)%10007)/10007.0*1.5
+}
+
+var edgeVals = []float64{0, 1, 1e-11, 1 - 1e-11, 0.25, 3, -0.5, -4, 1e-13, 1 - 1e-13, 0.75, 2}
+
+// leafValEdge draws from special points (zeros, ones, values around the clipping bounds, negatives);
+// points at which either formula is non-finite are skipped by the caller.
+func leafValEdge(salt int) func(name string, idx []int64) float64 {
+	return func(name string, idx []int64) float64 {
+		return edgeVals[leafHash(fmt.Sprintf("%s#%d", name, salt), idx)%uint64(len(edgeVals))]
+	}
 }
 
 // numericCompare returns 1 when a point separating the formulas is found (definite disagreement),
-// 0 when none was found (undecided).
+// 0 when none was found (undecided).  It evaluates the two EXTRACTED FORMULAS, never repository code.
 func (e *OpEngine) numericCompare(got, want sym.Expr, dims []sym.Poly) (int, string) {
 	cs := e.M.PathConstraints()
-	for trial := 0; trial < 6; trial++ {
+	// special points: zeros/ones/negatives, plus every constant of either formula and its neighbours
+	edges := append([]float64{}, edgeVals...)
+	seen := map[float64]bool{}
+	for _, v := range edges {
+		seen[v] = true
+	}
+	for _, c := range append(got.Constants(), want.Constants()...) {
+		for _, v := range []float64{c, -c, c * (1 + 1e-3), c * (1 - 1e-3), 1 - c} {
+			if !seen[v] && !math.IsNaN(v) && !math.IsInf(v, 0) && len(edges) < 64 {
+				seen[v] = true
+				edges = append(edges, v)
+			}
+		}
+	}
+	symTrials := []float64{1.25, -0.5, 0, 2.5, -3, 0.01}
+	for trial := 0; trial < 46; trial++ {
 		lo, hi := int64(1), int64(3+trial%3)
 		bounds := map[string][2]int64{}
 		mdl, ok := sym.Model(cs, lo, hi, bounds)
@@ -552,20 +582,22 @@ func (e *OpEngine) numericCompare(got, want sym.Expr, dims []sym.Poly) (int, str
 			}
 		}
 		env := &sym.EvalEnv{Ints: map[string]int64{}, Syms: map[string]float64{spec.Tol: 1e-9}, Leaf: leafVal}
+		symDefault := symTrials[trial%len(symTrials)]
+		edge := trial >= 6
+		if edge {
+			salt := trial
+			env.Leaf = func(name string, idx []int64) float64 {
+				return edges[leafHash(fmt.Sprintf("%s#%d", name, salt), idx)%uint64(len(edges))]
+			}
+		}
 		for k, v := range mdl {
 			env.Ints[k] = v
 		}
-		// unconstrained size atoms
-		for _, ex := range []sym.Expr{got, want} {
-			_ = ex
-		}
-		// index position: enumerate a few
 		sizes := make([]int64, len(dims))
 		okSizes := true
 		for i, d := range dims {
 			v, ok := d.Eval(env.Ints)
 			if !ok {
-				// bind free atoms of d
 				for _, a := range d.Atoms() {
 					if _, has := env.Ints[a]; !has {
 						env.Ints[a] = 2 + int64(trial%2)
@@ -587,14 +619,18 @@ func (e *OpEngine) numericCompare(got, want sym.Expr, dims []sym.Poly) (int, str
 			for i := range pos {
 				env.Ints[spec.IxName(i)] = pos[i]
 			}
-			a, err1 := evalWithDefaults(got, env)
-			b, err2 := evalWithDefaults(want, env)
+			a, err1 := evalWithDefaults(got, env, symDefault)
+			b, err2 := evalWithDefaults(want, env, symDefault)
+			finA := !math.IsNaN(a) && !math.IsInf(a, 0)
+			finB := !math.IsNaN(b) && !math.IsInf(b, 0)
+			if edge && !finB {
+				err2 = fmt.Errorf("definition non-finite at an edge point")
+			}
 			if err1 == nil && err2 == nil && e.realCondsHold(env) {
-				if !closeEnough(a, b) {
-					return 1, fmt.Sprintf("at %s index %v: rule gives %.6g, definition gives %.6g", sym.ModelString(mdl), pos, a, b)
+				if (finB && !finA) || !closeEnough(a, b) {
+					return 1, fmt.Sprintf("at %s index %v%s: code formula gives %.6g, definition gives %.6g", sym.ModelString(mdl), pos, symsString(env), a, b)
 				}
 			}
-			// next position
 			k := len(pos) - 1
 			for k >= 0 {
 				pos[k]++
@@ -612,6 +648,17 @@ func (e *OpEngine) numericCompare(got, want sym.Expr, dims []sym.Poly) (int, str
 	return 0, ""
 }
 
+func symsString(env *sym.EvalEnv) string {
+	s := ""
+	for k, v := range env.Syms {
+		if k == spec.Tol {
+			continue
+		}
+		s += fmt.Sprintf(" %s=%g", k, v)
+	}
+	return s
+}
+
 func (e *OpEngine) realCondsHold(env *sym.EvalEnv) bool {
 	for _, c := range e.M.RealConds() {
 		v, err := c.Eval(env)
@@ -622,7 +669,7 @@ func (e *OpEngine) realCondsHold(env *sym.EvalEnv) bool {
 	return true
 }
 
-func evalWithDefaults(x sym.Expr, env *sym.EvalEnv) (float64, error) {
+func evalWithDefaults(x sym.Expr, env *sym.EvalEnv, symDefault float64) (float64, error) {
 	for i := 0; i < 12; i++ {
 		v, err := x.Eval(env)
 		if err == nil {
@@ -631,7 +678,7 @@ func evalWithDefaults(x sym.Expr, env *sym.EvalEnv) (float64, error) {
 		msg := err.Error()
 		const p1, p2 = "unbound symbol ", "unbound"
 		if strings.HasPrefix(msg, p1) {
-			env.Syms[strings.TrimPrefix(msg, p1)] = 1.25 + 0.5*float64(len(env.Syms)%3)
+			env.Syms[strings.TrimPrefix(msg, p1)] = symDefault + 0.5*float64(len(env.Syms)%3)
 			continue
 		}
 		if strings.HasPrefix(msg, p2) {
